@@ -97,7 +97,8 @@ func vProduction() {
 	inTesting = false
 	inBenching = false
 	isDebugging = false
-	isDebug = false
+	// (isDebug is computed once at package init from the build and the DEBUG environment: false in a
+	// production binary, under the engine's environment stubs and in the native replayer alike)
 	states.Env().SetDebugMode(false)
 	states.Env().SetTraceMode(false)
 	flags = LstdFlags
